@@ -181,6 +181,12 @@ public:
   template <class F>
   using callback_type = sim_stop_callback<F>;
   sim_stop_token() noexcept = default;
+  // Like std::stop_token, moving is destructive: the moved-from token is empty (stop_possible() == false).
+  // Library code that asks a token anything after moving it elsewhere gets the wrong answer.
+  sim_stop_token(const sim_stop_token&) noexcept = default;
+  sim_stop_token& operator=(const sim_stop_token&) noexcept = default;
+  sim_stop_token(sim_stop_token&& o) noexcept : s_(o.s_) { o.s_ = nullptr; }
+  sim_stop_token& operator=(sim_stop_token&& o) noexcept { sim_stop_source* t = o.s_; o.s_ = nullptr; s_ = t; return *this; }
   bool stop_requested() const noexcept { return s_ && s_->stop_requested(); }
   bool stop_possible() const noexcept { return s_ != nullptr; }
   friend bool operator==(const sim_stop_token& a, const sim_stop_token& b) noexcept { return a.s_ == b.s_; }
